@@ -103,3 +103,70 @@ theorem outputs_erase (ctx env : Env) (x : String) :
     · by_cases h1 : lookup ctx k = some w <;> simp [outputs, erase, h1, h2, ih]
 
 end Pg.C19.Tail
+
+namespace Pg.C19.Tail
+open Pg.C19 Pg.C19.Node
+
+theorem nodesAll_append {κ : Type} (a b : List (Node κ)) : nodesAll (a ++ b) = nodesAll a ++ nodesAll b := by
+  induction a with
+  | nil => simp [nodesAll]
+  | cons c cs ih => simp [nodesAll, ih, List.append_assoc]
+
+theorem self_mem_nodes {κ : Type} (n : Node κ) : n ∈ nodes n := by
+  cases n with
+  | mk k l cs => simp [nodes]
+
+theorem Ex.call_node (l : Nat) (e : Ex) (h : e.hasCall = true) :
+    ∃ m ∈ nodes (e.toNode l), m.kind = Kind.Call := by
+  induction e with
+  | lit i => simp [Ex.hasCall] at h
+  | noneLit => simp [Ex.hasCall] at h
+  | var x => simp [Ex.hasCall] at h
+  | add a b iha ihb =>
+    simp only [Ex.hasCall, Bool.or_eq_true] at h
+    rcases h with h | h
+    · obtain ⟨m, hm, hk⟩ := iha h
+      exact ⟨m, by simp [Ex.toNode, nodes, nodesAll, hm], hk⟩
+    · obtain ⟨m, hm, hk⟩ := ihb h
+      exact ⟨m, by simp [Ex.toNode, nodes, nodesAll, hm], hk⟩
+  | print e _ => exact ⟨_, self_mem_nodes _, by simp [Ex.toNode, Node.kind]⟩
+
+theorem Stmt.call_node (l : Nat) (st : Stmt) (h : st.hasCall = true) :
+    ∃ m ∈ nodes (st.toNode l), m.kind = Kind.Call := by
+  cases st with
+  | assign ts e =>
+    obtain ⟨m, hm, hk⟩ := Ex.call_node l e h
+    exact ⟨m, by simp [Stmt.toNode, nodes, nodesAll_append, nodesAll, hm], hk⟩
+  | expr e =>
+    obtain ⟨m, hm, hk⟩ := Ex.call_node l e h
+    exact ⟨m, by simp [Stmt.toNode, nodes, nodesAll, hm], hk⟩
+  | aug x e =>
+    obtain ⟨m, hm, hk⟩ := Ex.call_node l e h
+    exact ⟨m, by simp [Stmt.toNode, nodes, nodesAll, hm], hk⟩
+  | pass => simp [Stmt.hasCall] at h
+
+theorem Stmt.assign_node (l : Nat) (st : Stmt) (h : st.assigns = true) :
+    ∃ m ∈ nodes (st.toNode l), m.kind = Kind.Assign ∨ m.kind = Kind.AugAssign := by
+  cases st with
+  | assign ts e => exact ⟨_, self_mem_nodes _, Or.inl (by simp [Stmt.toNode, Node.kind])⟩
+  | expr e => simp [Stmt.assigns] at h
+  | aug x e => exact ⟨_, self_mem_nodes _, Or.inr (by simp [Stmt.toNode, Node.kind])⟩
+  | pass => simp [Stmt.assigns] at h
+
+theorem mem_nodesFrom (prog : List Stmt) (st : Stmt) (h : st ∈ prog) (l : Nat) :
+    ∃ l', ∀ m ∈ nodes (st.toNode l'), m ∈ nodesAll (nodesFrom l prog) := by
+  induction prog generalizing l with
+  | nil => cases h
+  | cons s rest ih =>
+    rcases List.mem_cons.mp h with h | h
+    · subst h
+      exact ⟨l, fun m hm => by simp [nodesFrom, nodesAll, hm]⟩
+    · obtain ⟨l', hl'⟩ := ih h (l + 1)
+      exact ⟨l', fun m hm => by simp [nodesFrom, nodesAll, hl' m hm]⟩
+
+theorem mem_moduleOf (prog : List Stmt) (st : Stmt) (h : st ∈ prog) :
+    ∃ l', ∀ m ∈ nodes (st.toNode l'), m ∈ nodes (moduleOf prog) := by
+  obtain ⟨l', hl'⟩ := mem_nodesFrom prog st h 1
+  exact ⟨l', fun m hm => by simp [moduleOf, nodes, hl' m hm]⟩
+
+end Pg.C19.Tail
